@@ -61,6 +61,10 @@ ZIRBEL = {   # donor residue, donor atom -> class (or ('torsion', cis class, tra
 }
 
 
+class RepeatMismatch(Exception):
+    pass
+
+
 class AbsAngle:
     """abstract angle: only the outcome of `lo < a < hi` is modelled (one free bool)"""
 
@@ -77,7 +81,7 @@ class AbsAngle:
         return "<abstract angle>"
 
 
-def explore(cfg_name, order="fwd", models=None, model_arg=None):
+def explore(cfg_name, order="fwd", models=None, model_arg=None, repeat=False):
     """runs the real find_pairs over all abstract geometries of one configuration; returns (eng, paths, info)"""
     import z3
     from symx.engine import Engine, SBool
@@ -180,7 +184,12 @@ def explore(cfg_name, order="fwd", models=None, model_arg=None):
     A.KDTree, A.angle_between_vectors, A.torsion_angle, A.math = KD, fake_angle, fake_torsion, Shim()
 
     def run():
-        return A.find_pairs(Structure3D(list(residues)), model_arg)
+        out = A.find_pairs(Structure3D(list(residues)), model_arg)
+        if repeat:      # the same structure annotated again in the same process must give the same answer (no state kept between calls)
+            out2 = A.find_pairs(Structure3D(list(residues)), model_arg)
+            if [[repr(x) for x in part] for part in out2] != [[repr(x) for x in part] for part in out]:
+                raise RepeatMismatch(out, out2)
+        return out
     try:
         paths = eng.explore(run, maxpaths=60000)
     finally:
